@@ -27,7 +27,7 @@ struct ll_cmp : cc::lazy_list::traits { typedef Cmp compare; typedef cds::atomic
 struct il_less : cc::iterable_list::traits { typedef Less less; typedef cds::atomicity::item_counter item_counter; };
 struct il_cmp : cc::iterable_list::traits { typedef Cmp compare; typedef cds::atomicity::item_counter item_counter; typedef cc::iterable_list::stat<> stat; };
 
-typedef Cfg<CAPS_FULL> C_full; typedef Cfg<CAPS_FULL, true> C_repl;
+typedef Cfg<CAPS_FULL> C_full; typedef Cfg<CAPS_FULL, true> C_repl; typedef Cfg<CAPS_FULL, false, true, true, true, true> C_lazy_rcu;
 void gen(Rng& r, Program& p, int tier, const std::string&) { GenCfg g; g.min_hazards = 8; gen_program(r, p, tier, g); }
 #define COMPL(f) "real: " f ", SMR (HP/DHP src, RCU headers); simulated: scheduler, weak-CAS failures, stalls, thread churn, eager reclamation, (RCU) mutex/condvar/signals; oracle: linearizability vs key->instance map incl. quiescent find of every key, exact ordered traversal, size()/empty()"
 #define LIST_SET(var, NAME, GC, LIST, CFG, F) typedef SetA<GC, LIST, CFG> T_##var; SM_SUBJECT(var, NAME, "C13,C18,C20", T_##var, gen, COMPL(F))
@@ -40,14 +40,14 @@ typedef cc::MichaelList<RCU_GPT, Item, ml_less> ML5; LIST_SET(a5, "list.MichaelL
 typedef cc::MichaelList<RCU_SHB, Item, ml_less> ML6; LIST_SET(a6, "list.MichaelList_RCU_shb", RCU_SHB, ML6, C_full, "cds/container/michael_list_rcu.h cds/intrusive/michael_list_rcu.h")
 typedef cc::LazyList<HP, Item, ll_less> LL1; LIST_SET(b1, "list.LazyList_HP", HP, LL1, C_full, "cds/container/impl/lazy_list.h cds/intrusive/impl/lazy_list.h")
 typedef cc::LazyList<DHP, Item, ll_cmp> LL2; LIST_SET(b2, "list.LazyList_DHP_cmp", DHP, LL2, C_full, "cds/container/impl/lazy_list.h cds/intrusive/impl/lazy_list.h")
-typedef cc::LazyList<RCU_GPB, Item, ll_less> LL3; LIST_SET(b3, "list.LazyList_RCU_gpb", RCU_GPB, LL3, C_full, "cds/container/lazy_list_rcu.h cds/intrusive/lazy_list_rcu.h")
-typedef cc::LazyList<RCU_SHB, Item, ll_cmp> LL4; LIST_SET(b4, "list.LazyList_RCU_shb", RCU_SHB, LL4, C_full, "cds/container/lazy_list_rcu.h cds/intrusive/lazy_list_rcu.h")
+typedef cc::LazyList<RCU_GPB, Item, ll_less> LL3; LIST_SET(b3, "list.LazyList_RCU_gpb", RCU_GPB, LL3, C_lazy_rcu, "cds/container/lazy_list_rcu.h cds/intrusive/lazy_list_rcu.h")
+typedef cc::LazyList<RCU_SHB, Item, ll_cmp> LL4; LIST_SET(b4, "list.LazyList_RCU_shb", RCU_SHB, LL4, C_lazy_rcu, "cds/container/lazy_list_rcu.h cds/intrusive/lazy_list_rcu.h")
 typedef cc::IterableList<HP, Item, il_less> IL1; LIST_SET(c1, "list.IterableList_HP", HP, IL1, C_repl, "cds/container/impl/iterable_list.h cds/intrusive/impl/iterable_list.h")
 typedef cc::IterableList<DHP, Item, il_cmp> IL2; LIST_SET(c2, "list.IterableList_DHP_cmp", DHP, IL2, C_repl, "cds/container/impl/iterable_list.h cds/intrusive/impl/iterable_list.h")
 typedef cc::MichaelKVList<HP, long, long, ml_less> KM1; LIST_MAP(k1, "list.MichaelKVList_HP", HP, KM1, C_full, "cds/container/impl/michael_kvlist.h")
 typedef cc::MichaelKVList<RCU_GPB, long, long, ml_cmp> KM2; LIST_MAP(k2, "list.MichaelKVList_RCU_gpb", RCU_GPB, KM2, C_full, "cds/container/michael_kvlist_rcu.h")
 typedef cc::LazyKVList<HP, long, long, ll_less> KL1; LIST_MAP(k3, "list.LazyKVList_HP", HP, KL1, C_full, "cds/container/impl/lazy_kvlist.h")
-typedef cc::LazyKVList<RCU_GPI, long, long, ll_cmp> KL2; LIST_MAP(k4, "list.LazyKVList_RCU_gpi", RCU_GPI, KL2, C_full, "cds/container/lazy_kvlist_rcu.h")
+typedef cc::LazyKVList<RCU_GPI, long, long, ll_cmp> KL2; LIST_MAP(k4, "list.LazyKVList_RCU_gpi", RCU_GPI, KL2, C_lazy_rcu, "cds/container/lazy_kvlist_rcu.h")
 typedef cc::IterableKVList<HP, long, long, il_less> KI1; LIST_MAP(k5, "list.IterableKVList_HP", HP, KI1, C_repl, "cds/container/impl/iterable_kvlist.h")
 typedef cc::IterableKVList<DHP, long, long, il_cmp> KI2; LIST_MAP(k6, "list.IterableKVList_DHP", DHP, KI2, C_repl, "cds/container/impl/iterable_kvlist.h")
 } // namespace
